@@ -30,12 +30,11 @@ Inductive mixed :=
 (* outcomes of the serializer *)
 Inductive sres (A : Type) :=
 | SOk (a : A)
-| SFuel          (* RecursionError (or the exponential walk it degenerates into) *)
-| SLeak.         (* returned data that is not JSON: a Python object was left inside *)
-Arguments SOk {A} a. Arguments SFuel {A}. Arguments SLeak {A}.
+| SFuel.         (* RecursionError (or the exponential walk it degenerates into) *)
+Arguments SOk {A} a. Arguments SFuel {A}.
 
 Definition sbind {A B} (r : sres A) (f : A -> sres B) : sres B :=
-  match r with SOk a => f a | SFuel => SFuel | SLeak => SLeak end.
+  match r with SOk a => f a | SFuel => SFuel end.
 
 Definition smap {A B} (f : A -> sres B) : list A -> sres (list B) :=
   fix go (l : list A) : sres (list B) :=
@@ -61,32 +60,6 @@ Fixpoint cattrs_walk (fuel : nat) (h : heap) (r : nat) : sres mixed :=
                 (fun l => SOk (MObj l))
       | SFwd kvs => SOk (MObj (map (fun kv => (fst kv, MRaw (snd kv))) kvs))
       end
-  end.
-
-(* a raw object that is plain data is JSON as it stands; anything holding a dataclass instance (or a
-   cyclic container: json.dumps raises) is not *)
-Fixpoint raw_json (fuel : nat) (h : heap) (r : nat) : sres json :=
-  match fuel with
-  | O => SLeak
-  | S f =>
-      match deref h r with
-      | SNone => SOk JNull
-      | SScalar j => SOk j
-      | SList items => sbind (smap (raw_json f h) items) (fun l => SOk (JArr l))
-      | SDict kvs => sbind (smap (fun kv => sbind (raw_json f h (snd kv)) (fun j => SOk (fst kv, j))) kvs)
-                           (fun l => SOk (JObj l))
-      | SData _ | SFwd _ => SLeak
-      end
-  end.
-
-Fixpoint mixed_json (fuel : nat) (h : heap) (m : mixed) : sres json :=
-  match m with
-  | MNull => SOk JNull
-  | MScalar j => SOk j
-  | MArr l => sbind (smap (mixed_json fuel h) l) (fun l' => SOk (JArr l'))
-  | MObj kvs => sbind (smap (fun kv => sbind (mixed_json fuel h (snd kv)) (fun j => SOk (fst kv, j))) kvs)
-                      (fun l => SOk (JObj l))
-  | MRaw r => raw_json fuel h r
   end.
 
 Fixpoint remove_none_values (j : json) : json :=
@@ -139,9 +112,11 @@ Fixpoint ser (fuel : nat) (h : heap) (top : bool) (visited : list nat) (r : nat)
                      sbind (cattrs_walk f h r) (fun m =>
                      sbind (ens_mixed (ser f h false (r :: visited)) m) (fun j =>
                      SOk (remove_none_values j)))
-                 | _ => (* dicts and everything else: cattrs, then only _remove_none_values *)
+                 | _ => (* dicts and everything else: cattrs, then _ensure_all_dicts (dicts are not tracked in
+                           visited) and _remove_none_values *)
                      sbind (cattrs_walk f h r) (fun m =>
-                     sbind (mixed_json f h m) (fun j => SOk (remove_none_values j)))
+                     sbind (ens_mixed (ser f h false visited) m) (fun j =>
+                     SOk (remove_none_values j)))
                  end
           else
             match o with
@@ -170,13 +145,10 @@ Definition serializer_ok (r : sres json) : Prop := exists j, r = SOk j /\ no_nul
 Definition fuel_for (h : heap) : nat := 4 * length h + 8.
 Definition serialize_top (h : heap) (r : nat) : sres json := ser (fuel_for h) h true [] r.
 
-(* executable guards of the findings, for any heap: the walk of the faithful model neither exhausts
-   its recursion budget (F16a) nor leaves a Python object in the data (F16d) *)
+(* executable guard of the finding, for any heap: the walk of the faithful model does not exhaust its
+   recursion budget (F16a) *)
 Definition guard_F16a (h : heap) (r : nat) : bool :=
   match serialize_top h r with SFuel => false | _ => true end.
-Definition guard_F16d (h : heap) (r : nat) : bool :=
-  match serialize_top h r with SLeak => false | _ => true end.
-
 (* guard of the positive theorem: every stored reference points to a smaller index (topologically
    ordered, hence acyclic), no forward-reference dataclass, scalar cells hold scalars *)
 Definition refs (o : sobj) : list nat :=
